@@ -599,6 +599,12 @@ func (vt *Model) Draw(win vaxis.Window) {
 			if cell.Grapheme == "" {
 				cell.Grapheme = " "
 			}
+			if col+w > vt.width() {
+				// A wide character in the last column would be drawn
+				// over the cell to the right of the window
+				cell.Grapheme = " "
+				cell.Width = 1
+			}
 
 			win.SetCell(col, row, cell.Cell)
 			if w == 0 {
